@@ -30,7 +30,7 @@ RULE = (
     "one evaluation = one batch (program, dataset, options) = a canonical single-core run plus 3-6 perturbed runs in the same interpreter; "
     "distinct_nontrivial = distinct SHA-256 of the IPC event sequence (who reached which synchronisation point in which order) among the multi-core runs"
 )
-FAULT_KEYS = ["schedule_choices", "multi_core_runs", "cores_gt_loci", "locus_order", "locus_subset", "region_single", "prior_work", "proc_rng_init",
+FAULT_KEYS = ["policy_uniform", "policy_sticky", "policy_starve_writer", "policy_starve_main", "policy_eager_main", "policy_last_first", "schedule_choices", "multi_core_runs", "cores_gt_loci", "locus_order", "locus_subset", "region_single", "prior_work", "proc_rng_init",
               "clock_jump", "small_stdout_buffer", "buffer_full_write", "failing_locus_injected", "failing_locus_real", "fork_unflushed"]
 PROBE_KEYS = ["runs_total", "multi_core_runs", "failing_locus_in_worker", "failing_locus_single_core", "empty_block", "records_compared",
               "header_compared", "torn_tail_on_failure", "programs_assemble", "programs_call", "programs_call_exact", "programs_call_pedigree"]
@@ -130,12 +130,17 @@ def gen_config(rng, tier, index=0):
             "proc_rng_init": rng.random() < 0.7,
             "day_shift": rng.choice([0, 0, 1, 365, -30]),
             "capacity": rng.choice([None, None, 64, 300, 4096]),
+            "policy": rng.choice(["uniform", "uniform", "sticky", "starve_writer", "starve_main", "eager_main", "last_first"]),
             "fail": bool(fail_batch and (v == n_var - 1 or rng.random() < 0.5)),
         })
     return cfg
 
 
 # ---------------------------------------------------------------------------
+
+
+def multi_core(var):
+    return var["cores"] > 1
 
 
 def rec_key(line):
@@ -240,9 +245,9 @@ class Batch:
                     f.write("%s\t%s\t%s\n" % (x, s[0], s[1] if k % 2 == 0 else "."))
         return p
 
-    def run(self, program, argv, day, seed_rng=True, capacity=None, before_locus=None):
+    def run(self, program, argv, day, seed_rng=True, capacity=None, before_locus=None, policy="uniform"):
         import warnings
-        ps = ProcessSim(self.ctx, proc_rng_init=seed_rng, capacity=capacity)
+        ps = ProcessSim(self.ctx, proc_rng_init=seed_rng, capacity=capacity, policy=policy)
         with warnings.catch_warnings():
             warnings.simplefilter("ignore", category=UserWarning)
             return ps.run(self.program_cls(program), argv, day, before_locus=before_locus)
@@ -374,7 +379,9 @@ def run_batch(ctx, b):
             argv = b.argv(program, dsv, cores, hapvcf=hv2)
         if var["capacity"]:
             ctx.counters.inc("small_stdout_buffer")
-        r = b.run(program, argv, day, seed_rng=var["proc_rng_init"], capacity=var["capacity"], before_locus=before)
+        r = b.run(program, argv, day, seed_rng=var["proc_rng_init"], capacity=var["capacity"], before_locus=before, policy=var.get("policy", "uniform"))
+        if multi_core(var):
+            ctx.counters.inc("policy_" + var.get("policy", "uniform"))
         ctx.counters.inc("runs_total")
         multi = cores > 1
         if multi:
@@ -517,8 +524,8 @@ def shrink_candidates(cfg, violation):
             c["variants"] = vs[:i] + vs[i + 1:]
             out.append(c)
     for i, v in enumerate(vs):
-        for k, simple in (("prior_work", None), ("capacity", None), ("day_shift", 0), ("subset", None), ("order", "file"), ("proc_rng_init", False), ("region", False)):
-            if v[k] != simple:
+        for k, simple in (("policy", "uniform"), ("prior_work", None), ("capacity", None), ("day_shift", 0), ("subset", None), ("order", "file"), ("proc_rng_init", False), ("region", False)):
+            if v.get(k) != simple:
                 c = dict(cfg)
                 c["variants"] = [dict(x) for x in vs]
                 c["variants"][i][k] = simple
